@@ -1495,7 +1495,10 @@ func c18CmpXchgPairs(r *fw.Rec) {
 // member of its own in this library, not a shorthand the printer may introduce).
 func c18FastMathSubsets(r *fw.Rec) {
 	all := []enum.FastMathFlag{enum.FastMathFlagAFn, enum.FastMathFlagARcp, enum.FastMathFlagContract, enum.FastMathFlagFast, enum.FastMathFlagNInf, enum.FastMathFlagNNaN, enum.FastMathFlagNSZ, enum.FastMathFlagReassoc}
-	kinds := []string{"fneg", "fadd", "fsub", "fmul", "fdiv", "frem", "fcmp", "phi", "select", "call"}
+	kinds := []string{"fneg", "fadd", "fsub", "fmul", "fdiv", "frem", "fcmp", "phi", "select", "call",
+		// results that are vectors of floating-point values, arrays of them and arrays of such vectors
+		// (LLVM: a call, select or phi is a floating-point operation if its type is, after stripping arrays)
+		"fadd-vector", "fcmp-vector", "call-vector", "call-array", "call-array-of-vectors", "call-array-of-arrays", "select-array", "phi-array-of-vectors"}
 	for sub := 0; sub < 256; sub++ {
 		var flags []enum.FastMathFlag
 		for i, f := range all {
@@ -1538,6 +1541,32 @@ func c18FastMathSubsets(r *fw.Rec) {
 				b.NewBr(nb)
 				nb.NewPhi(ir.NewIncoming(x, b)).FastMathFlags = flags
 				b = nb
+			default:
+				v4 := types.NewVector(4, types.Float)
+				arr := types.NewArray(2, types.Float)
+				arrv := types.NewArray(2, types.NewVector(2, types.Double))
+				arra := types.NewArray(2, types.NewArray(3, types.Half))
+				switch kind {
+				case "fadd-vector":
+					b.NewFAdd(irconst.NewZeroInitializer(v4), irconst.NewZeroInitializer(v4)).FastMathFlags = flags
+				case "fcmp-vector":
+					b.NewFCmp(enum.FPredUGT, irconst.NewZeroInitializer(v4), irconst.NewZeroInitializer(v4)).FastMathFlags = flags
+				case "call-vector":
+					b.NewCall(m.NewFunc("extv", v4)).FastMathFlags = flags
+				case "call-array":
+					b.NewCall(m.NewFunc("exta", arr)).FastMathFlags = flags
+				case "call-array-of-vectors":
+					b.NewCall(m.NewFunc("extav", arrv)).FastMathFlags = flags
+				case "call-array-of-arrays":
+					b.NewCall(m.NewFunc("extaa", arra)).FastMathFlags = flags
+				case "select-array":
+					b.NewSelect(c, irconst.NewZeroInitializer(arr), irconst.NewUndef(arr)).FastMathFlags = flags
+				case "phi-array-of-vectors":
+					nb := f.NewBlock("next")
+					b.NewBr(nb)
+					nb.NewPhi(ir.NewIncoming(irconst.NewZeroInitializer(arrv), b)).FastMathFlags = flags
+					b = nb
+				}
 			}
 			b.NewRet(nil)
 			text, pp := printGuard(m)
@@ -1545,6 +1574,13 @@ func c18FastMathSubsets(r *fw.Rec) {
 			if pp != "" {
 				r.Violate(fw.Violation{Key: "flagset-print-panic/FastMathFlag/" + kind, What: firstLine(pp)})
 				continue
+			}
+			if sub == 255&^8 {
+				// LLVM's word on the context: flags on this kind of result are valid LLVM 14
+				if ok, msg, err := llvmref.Accepts(text); err == nil && !ok {
+					r.Violate(fw.Violation{Key: "flagset-invalid-for-llvm/FastMathFlag/" + kind, Input: text, What: "LLVM rejects the printed instruction with fast-math flags: " + firstLine(lastDiag(msg))})
+					continue
+				}
 			}
 			m2, perr, pmsg := parseGuard("c18-fmf", text)
 			if pmsg != "" || perr != nil {
